@@ -17,6 +17,7 @@ type kvRec struct {
 	cAt, uAt, eAt              int64
 	cBy, uBy                   string
 	metaUnknown                bool // metadata not specified by the docs after the last operation (not compared)
+	persisted                  bool // hidden state: the record has been written to the file at least once (state key only)
 }
 
 type refkv struct {
@@ -27,6 +28,8 @@ type refkv struct {
 	// ghost: keys on which a conditional increment failed while the key did not exist. The server keeps a hidden
 	// typed record for such a key (known finding); the model only remembers the precondition for classification.
 	ghost map[string]string
+	// reopened: hidden state - the live swamp instance was loaded from its file (state key only)
+	reopened bool
 }
 
 func newRefkv() *refkv { return &refkv{recs: map[string]*kvRec{}, ghost: map[string]string{}} }
